@@ -110,6 +110,14 @@ class ContractTable:
             return BoundMethod(o, fd)
         if self.has(attr):
             return ContractMethod(o, attr)
+        if o.cls is None and attr == "_inners" and "indexed" in o.ghost:
+            # an operand of a symbolic-arity node that the path knows to be an n-ary node itself
+            fam, idx = o.ghost["indexed"]
+            nary = z3.Or(fam.tagF(idx) == sym.CLS["Add"], fam.tagF(idx) == sym.CLS["Multiply"])
+            if I.path.branch(nary, f"{o.name}-is-n-ary"):
+                from . import gexec
+                return gexec.nested_operands(I, o)
+            raise Raise(I.bi.make_exc("AttributeError", "object has no attribute _inners"), I.where())
         if o.cls is None:
             # an attribute of an object of unknown class: AttributeError for the classes
             # that lack it.  If no expression class has it, that is certain.
